@@ -91,6 +91,8 @@ class Ctx:
         self.deadline = self.t0 + seconds if seconds else None
         base = "/dev/shm" if os.path.isdir("/dev/shm") else None
         self.scratch = tempfile.mkdtemp(prefix="vf-%s-" % pid, dir=base)
+        from vf import pool as _pool
+        _pool.DEFAULT_SCRATCH[0] = self.scratch
         self.cache = {}
         self.extra = {}
 
